@@ -188,6 +188,14 @@ def main():
                     res = [n.Z, n.A, n.state, n.id, float(n.atomic_mass).hex(), str(n.half_life("readable")), repr(n.progeny())]
                 elif meth == "dataset_queries":
                     res = [float(D.half_life(args[0], "y")).hex(), float(D.branching_fraction(args[0], args[1])).hex(), D.decay_mode(args[0], args[1])]
+                    # the same quantity asked in several units one after the other: each answer is the stored half-life in that unit,
+                    # whatever was asked before (m before ms, s before us, d before days ...)
+                    hs_ = float(D.half_life(args[0], "s"))
+                    for u_, f_ in (("m", 1 / 60.0), ("ms", 1e3), ("h", 1 / 3600.0), ("s", 1.0), ("us", 1e6), ("d", 1 / 86400.0), ("ms", 1e3), ("m", 1 / 60.0)):
+                        v_ = float(D.half_life(args[0], u_))
+                        if not (abs(v_ - hs_ * f_) <= 1e-12 * abs(hs_ * f_)):
+                            viol.append({"step": nsteps + 1, "method": meth, "what": f"half_life({args[0]!r}, {u_!r}) = {v_!r} is not the half-life in s ({hs_!r}) x {f_!r}: the answer depends on the queries made before it"})
+                            break
                 elif meth == "eq":
                     other = live[args[0] % len(live)]
                     res = [inv == other, inv != other, other == inv]
